@@ -130,6 +130,7 @@ func RunObserved(ctx context.Context, pr Program, sameProc, doRollback bool) (*O
 	res.WriteSet = common.VerifWriteSet(t.P)
 	res.Deltas = common.VerifCountDeltas(t.P)
 	res.Items = common.VerifItemCounts(t.P)
+	res.Values = common.VerifValueIDs(t.P)
 	nameWriteSet(e, res.WriteSet, o.Pre)
 	res.N0 = e.Canon.Next()
 	res.CommitStart = sc.N() + 1
